@@ -70,6 +70,18 @@ Accept(e) ==
             /\ e.post.siz = (IF e.a1 = 0 THEN 1 ELSE e.a1)
             /\ IF isvec THEN t = <<e.val>> ELSE t = [j \in 1..e.a2 |-> e.val] /\ mem2 = e.a2
        [] OTHER -> FALSE
+  \* element callbacks (events recorded with them carry "cb"): the destructor is handed exactly the discarded elements
+  \* (any order), the copy function is called once per stored element; "final" = what the destructor was handed when the
+  \* container was destroyed afterwards: exactly what was left
+  /\ ("cb" \in DOMAIN e =>
+        /\ e.cb.ndtor = Len(e.cb.dtor)
+        /\ CASE e.op = "erase" -> Bag(e.cb.dtor) = Bag(IF EraseOK(s, e.a1) THEN SubSeq(s, e.a1 + 1, Min2(e.a1 + e.a2, n)) ELSE <<>>)
+              [] e.op = "setn" -> LET k == IF isvec THEN e.a1 ELSE Min2(e.a1, mem) IN
+                                  Bag(e.cb.dtor) = Bag(IF k < n THEN SubSeq(s, k + 1, n) ELSE <<>>)
+              [] e.op = "setz" -> Bag(e.cb.dtor) = Bag(s)
+              [] e.op = "store" -> e.cb.dtor = <<>> /\ e.cb.copies = (IF fits(Len(e.blk)) THEN Len(e.blk) ELSE 0)
+              [] OTHER -> TRUE)
+  /\ ("final" \in DOMAIN e => Bag(e.final) = Bag(t))
 
 TraceInit == l = 1
 Step == /\ l <= Len(Tr)
